@@ -13,7 +13,7 @@ def load_rule_modules():
 
 PROPS = {
     "C01": {
-        "rules": ["C01.R1", "C01.R2", "C01.R3", "C01.R4", "C01.R5", "C01.R6", "C01.R8", "C01.R9", "C01.R10", "C03.R4", "C03.R5", "C07.R4", "C20.R2", "C18.R1", "C18.R2", "C13.R1", "C13.R2", "C13.R3", "C12.R3", "C12.R4", "C12.R7", "C01.R11", "C15.R1", "C18.R5", "C12.R10", "C03.R3"],
+        "rules": ["C01.R1", "C01.R2", "C01.R3", "C01.R4", "C01.R5", "C01.R6", "C01.R8", "C01.R9", "C01.R10", "C03.R4", "C03.R5", "C07.R4", "C20.R2", "C18.R1", "C18.R2", "C13.R1", "C13.R2", "C13.R3", "C12.R3", "C12.R4", "C12.R7", "C01.R11", "C15.R1", "C18.R5", "C12.R10", "C03.R3", "C18.R7", "C10.R3"],
         "explanation": "Decides the integrity of the up-to-date decision (each rule a necessary condition of C01): history looked up and recorded under this rule's sources hash; sources hash covers every upstream hash in receiver order; remembered vector index-aligned with the targets; AlreadyCorrect only under a full Ticket equality with the current hash of the same file; command skipped only when no target needs rebuilding; what is recorded is what was read from disk after a successful command; producer/consumer sub-index agreement; a status of Recovered only where a restore happened; the mtime shortcut is exact; the content hash covers the file to its end (returned only on a zero-length read). Not decided: byte equality with a from-scratch build over arbitrary histories (runtime state).",
     },
     "C02": {
@@ -21,11 +21,11 @@ PROPS = {
         "explanation": "Decides: at most one command execution per rule per build (no call site of the chain on a cycle or twice on a path); the Up-to-date path reaches no mutating System method; the command runs only on the true edge of needs-rebuild; NeedsRebuild only after the cache (and download) said NotThere; what was learned is persisted (history returned and written); the hashes handed to dependents are hashes just taken from the files, never remembered ones (a stale or empty one makes dependents miss their history and run). Not decided: that a lookup hits on a given history.",
     },
     "C03": {
-        "rules": ["C03.R1", "C03.R2", "C03.R3", "C03.R4", "C03.R5", "C09.R3", "C12.R3", "C12.R4", "C12.R7", "C01.R11", "C04.R1", "C18.R1", "C01.R2", "C12.R10", "C12.R11"],
+        "rules": ["C03.R1", "C03.R2", "C03.R3", "C03.R4", "C03.R5", "C09.R3", "C12.R3", "C12.R4", "C12.R7", "C01.R11", "C04.R1", "C18.R1", "C01.R2", "C12.R10", "C12.R11", "C07.R3"],
         "explanation": "Decides the happens-before chain of C03 as it is visible in the code's shape: handler only on the Ok edge of the draining function; draining function returns Ok only after recv succeeded on every receiver; hashes are announced only after the handler returned Ok and are taken from its result by the sub-index stored with the sender; the handler's Ok after a command means every command line exited with status 0 (a failed producer never releases its dependents). Not decided: correctness of the announced content, acyclicity of the runtime plan.",
     },
     "C04": {
-        "rules": ["C04.R1", "C04.R2", "C04.R3", "C04.R4", "C04.R5", "C04.R6", "C08.R4", "C04.R7", "C18.R4", "C02.R6"],
+        "rules": ["C04.R1", "C04.R2", "C04.R3", "C04.R4", "C04.R5", "C04.R6", "C08.R4", "C04.R7", "C18.R4", "C02.R6", "C06.R1"],
         "explanation": "Decides: exit status is tested (code == Some(0)) before an output is accepted; nothing is recorded for a failed execution (history written only under Ok(Ok(_)) of join, error types carry no history); cancel is forwarded on every failing path; a Cancel packet stops the dependent; one error per failed thread, none for cancelled ones; errors carry the failing path; CommandLineOutput.code / success are the process's own exit status, unaltered. Not decided: content correctness of independent rules (C01).",
     },
     "C05": {
@@ -33,15 +33,15 @@ PROPS = {
         "explanation": "Decides the channel protocol that makes build/clean terminate: exactly one packet per edge per return path, receivers drained completely, all spawns before any join and every handle joined; the sub-index a dependent is wired with is a position in the producer's own target list (an out-of-range one panics the producer's thread); every loop reachable from the entry points is a `for` over an iterator or a reviewed loop with the reason it ends (a new loop of another kind is an open obligation); Not decided: acyclicity of the runtime wait-for graph (sorter output).",
     },
     "C06": {
-        "rules": ["C06.R1", "C06.R3", "C06.R3b", "C09.R3", "C12.R1", "C05.R1", "C05.R3", "C01.R2", "C18.R2", "C01.R5", "C06.R4"],
+        "rules": ["C06.R1", "C06.R3", "C06.R3b", "C09.R3", "C12.R1", "C05.R1", "C05.R3", "C01.R2", "C18.R2", "C01.R5", "C06.R4", "C06.R5"],
         "explanation": "Non-interference argument: threads share nothing but channels and the file system (capture inventory); the only contended resource is the cache directory, on which no check-then-act may turn a lost race into a hard error; absence of a cache entry is never an error; channel results are consumed in receiver order, never arrival order; a rule whose restore lost the race for a shared entry is rebuilt (the needs-rebuild predicate is true if *any* target needs it); a restored file is never hashed through the mtime shortcut with the state of the file it replaced (which physical file - and so which mtime - a shared cache entry holds depends on the order in which sibling rules backed up identical content); rule threads create no directory or file on a test-then-create basis; Not decided: equality of final bytes.",
     },
     "C07": {
-        "rules": ["C07.R1", "C07.R2", "C07.R3", "C07.R4", "C07.R5", "C01.R6", "C01.R9", "C01.R10", "C18.R1", "C18.R2", "C15.R1", "C18.R5", "C18.R6"],
+        "rules": ["C07.R1", "C07.R2", "C07.R3", "C07.R4", "C07.R5", "C01.R6", "C01.R9", "C01.R10", "C18.R1", "C18.R2", "C15.R1", "C18.R5", "C18.R6", "C18.R7"],
         "explanation": "Decides: a file enters the cache only under the hash computed from that very path with no mutation in between; one naming scheme for writer and readers; only the two renames of cache.rs write into the cache directory; (path, assumed state) pairs come from one FileInfo; hashes are refreshed after a command; the hash function reads the file to its end and returns only on a zero-length read (an entry is never named by the hash of a prefix). Not decided: truth of remembered (hash, mtime) pairs at runtime.",
     },
     "C08": {
-        "rules": ["C08.R1", "C08.R2", "C08.R3", "C08.R4", "C07.R1", "C18.R1", "C01.R10", "C07.R4", "C08.R5", "C12.R3"],
+        "rules": ["C08.R1", "C08.R2", "C08.R3", "C08.R4", "C07.R1", "C18.R1", "C01.R10", "C07.R4", "C08.R5", "C12.R3", "C11.R2"],
         "explanation": "Decides: there is no deleting primitive (System trait method set, no std::fs outside real.rs); every rename destination is a content-named cache entry or a path proven vacant (backed up / found absent) on every path through all callers; every create_file targets a ruler state file or a vacant path, writes only go to created files; every non-AlreadyCorrect verdict is preceded by displacement; the state stored for a path describes the file at that path and is stored into the kept object (a stale pair would file a back-up under another file's name, on top of a genuine entry); a file is never hashed through the shortcut with the remembered state of a different path. Not decided: preservation of actual bytes on a real file system.",
     },
     "C09": {
@@ -53,7 +53,7 @@ PROPS = {
         "explanation": "Decides: clean backs up every existing target of every node (complete loops, no skipping path, errors returned); a missing target with a remembered hash is restored by rename from the entry named by that hash; downloaded files get their remembered permission; clean honours its goal; the remembered state clean names cache entries by always describes the file at that path (no stale (hash, mtime) pair after a restore). Not decided: end-to-end behaviour on a real file system.",
     },
     "C11": {
-        "rules": ["C11.R1", "C11.R2", "C11.R4", "C11.R5", "C04.R2", "C16.R2", "C01.R10", "C18.R1", "C01.R11", "C01.R5", "C07.R2"],
+        "rules": ["C11.R1", "C11.R2", "C11.R4", "C11.R5", "C04.R2", "C16.R2", "C01.R10", "C18.R1", "C01.R11", "C01.R5", "C07.R2", "C10.R3"],
         "explanation": "Decides: user data moves only by single renames (no open+create copy); history written only after a successful join, the file-state table only after all joins; state files read back by a strict decoder must be replaced atomically (temp + rename); directory initialisation completes a partial creation (each create_dir guarded by the absence of that same path); an opened state file is always decoded (an empty one is damage, not `no state`); since a kill can leave the file-state table behind the history, every remembered state is validated against the file (exact-mtime shortcut) and every stored state describes the file at its path. Not decided: the disk state at each individual crash point (fault enumeration).",
     },
     "C12": {
@@ -61,7 +61,7 @@ PROPS = {
         "explanation": "Decides: duplicate targets are detected for every target of every rule; the goal-restricted sort starts only at an existing goal; rules / targets / sources are sorted before numbering and no hash-order iteration reaches the plan; every source is bound to (final index of the producing rule, position among its targets) or to its leaf entry; both cyclic verdicts exist and are guarded; the cycle verdict is issued only against open (visited, on-stack) frames; a whole-graph sort starts a search at every rule and a failed search ends it; the cyclic verdicts are raised inside the search only (never against rules the goal does not reach); Not decided: that the DFS visits exactly the ancestors, once, in dependency order (algorithmic).",
     },
     "C13": {
-        "rules": ["C13.R1", "C13.R2", "C13.R3", "C13.R4", "C07.R2", "C15.R8"],
+        "rules": ["C13.R1", "C13.R2", "C13.R3", "C13.R4", "C07.R2", "C15.R8", "C12.R3"],
         "explanation": "Injectivity of the hashed serialisation as a chain of structural facts (modulo SHA-256): all three fields reach the hash completely and in order; every element is followed by a newline and every section by a delimiter line ':' while the parser never stores a line that is empty or ':' and splits on newline; targets and sources are sorted (or checked sorted), the command is not; the identity names the history file and is the hash of the very strings the node carries. Not decided: nothing of the statement beyond hash collisions; end-to-end use of the identity is C01.",
     },
     "C14": {
@@ -81,11 +81,11 @@ PROPS = {
         "explanation": "Decides: insert never overwrites (only on the miss edge of the same key) and maps Contradiction to Err; every successful re-execution passes through insert; exactly the indices whose tickets differ are reported and mapped to paths[i] of the refreshed blob; the earlier record cannot leave through an error; the hashes compared after a re-execution are those of the files just written (the refresh reuses a remembered hash only under exact mtime equality); the history is not rooted in the cache directory; the record of every rule that finished is written back whatever happened to other rules of the same build (an unrecorded re-execution cannot be contradicted later). Not decided: whether a given history forces re-execution.",
     },
     "C18": {
-        "rules": ["C18.R1", "C18.R2", "C18.R3", "C01.R6", "C01.R9", "C01.R10", "C11.R2", "C18.R4", "C18.R5", "C01.R11", "C16.R7", "C18.R6", "C07.R1"],
+        "rules": ["C18.R1", "C18.R2", "C18.R3", "C01.R6", "C01.R9", "C01.R10", "C11.R2", "C18.R4", "C18.R5", "C01.R11", "C16.R7", "C18.R6", "C07.R1", "C18.R7"],
         "explanation": "Decides: the shortcut is taken only under exact equality of the file's own mtime with the remembered one; the table is refreshed whenever a command ran; a restored file is never hashed through the shortcut with the state of the file it replaced, and always gets a fresh stored state (unconditionally, not only when the mtimes differ); different modification times give different timestamp numbers (whole seconds scaled by the unit of the sub-second part); Not decided: equality of paired runs over all histories.",
     },
     "C19": {
-        "rules": ["C19.R1", "C19.R2", "C19.R3", "C19.R4", "C19.R5", "C19.R6", "C07.R2", "C15.R4", "C01.R4", "C19.R7", "C07.R1", "C18.R1"],
+        "rules": ["C19.R1", "C19.R2", "C19.R3", "C19.R4", "C19.R5", "C19.R6", "C07.R2", "C15.R4", "C01.R4", "C19.R7", "C07.R1", "C18.R1", "C12.R3"],
         "explanation": "Decides: both endpoints decode every request name as a ticket before any file-system access and answer 404 otherwise; the only file-system entry points reachable from a request take a Ticket and build `<ruler dir>/<43 alphanumerics>`; 200 only on the success edges of lookup and read, every lookup failure is 404, bodies are the opened entry's bytes / the newline-joined hashes of the looked-up vector; request handlers' panic obligations; the lookup key type compares all 32 bytes (derived equality on Ticket); a cache entry is opened for serving only after it was found to be a regular file; the objects the endpoints look things up through carry no memo (no container / interior-mutability field), so answers come from the files as they are now; Not decided: that served bytes equal the requested content at runtime (C07); warp's routing.",
     },
     "C20": {
